@@ -3,4 +3,4 @@
 From PegtlV Require Import Base Grammar Engine ExactSound Regex Rfc3986 UriModel UriProof.
 
 Lemma sound_URI_reference : forall s, bytes_ok s -> uri_accepts TURI_reference s -> matches (rfc TURI_reference) s.
-Proof. apply sound_of_cert. vm_compute. reflexivity. Qed.
+Proof. apply sound_of_cert. vm_cast_no_check (eq_refl true). Qed.
